@@ -134,17 +134,19 @@ PROPS["C07"] = dict(
          "argv[i] byte for byte, argv[argc]==nullptr. (b) rule-obeying abstract lines of rule-rich configurations whose uses are "
          "split over program-argument file / environment variable / argv in the documented evaluation order (file lines with "
          "several words, comment and empty lines, three quoting styles; both file mechanisms hfReadProgArg and addArgumentFile, the latter also nested (an argument file that names another one between its own lines); "
+         "the free values of a multi-value argument may continue on the next file line (comment/empty lines between them) and, when the argument ends the file/environment part, on argv; "
          "both environment mechanisms; program names with and without path). Oracle: destinations == same words on argv == model; "
          "plus a scalar given in file/env and again on argv is accepted and ends with the argv value. Non-trivial = (a) a word "
          "contains a blank, quote or backslash, (b) >= 1 use from a non-argv source and >= 1 from argv; distinct by case hash.",
     require_classes=dict(all=["style.backslash", "style.single", "style.double", "style.backslash_all", "mixed_segments",
                               "source.arg_file", "source.prog_arg_file", "source.env_default_name", "source.env_named",
                               "source.file_comment_line", "source.override", "source.nested_arg_file",
-                              "source.nested_arg_file_override"]),
+                              "source.nested_arg_file_override", "source.value_list_continued_on_next_line",
+                              "source.value_list_continued_on_argv"]),
     assumptions=DOMAIN_ASSUMPTIONS + [
         "'escaping' means the splitter's own documented rules (a backslash protects the next character everywhere, also inside quotes), not POSIX shell quoting",
         "empty words are out of domain (an empty quoted run produces no word; the property says non-empty words)",
-        "every file line is newline terminated; all words of one use stay on one file line; words starting with '#' are not generated"],
+        "every file line is newline terminated; key and first value of a use stay on one file line (further free values of a multi-value argument may follow on later lines); words starting with '#' are not generated"],
 )
 MANIFEST_TEXT["C07"] = dict(
     text="(a) round trip: escaping and joining generated word lists, then splitting, must give the words back (bounded exhaustive + generated); "
